@@ -107,7 +107,8 @@ def run(c):
                  dict(vectors="", graphs=graphs[4:5], first=0, runs=0, steps=0, nbig=0),
                  dict(vectors="", graphs=graphs[5:6], first=0, runs=0, steps=0, nbig=0),
                  dict(vectors="", graphs=graphs[8:9], first=0, runs=0, steps=0, nbig=0),
-                 dict(vectors="", graphs=graphs[9:10] + graphs[6:8], first=0, runs=100, steps=140, nbig=0),
+                 dict(vectors="", graphs=graphs[9:10], first=0, runs=0, steps=0, nbig=0),
+                 dict(vectors="", graphs=graphs[6:8], first=0, runs=100, steps=140, nbig=0),
                  dict(vectors="", graphs=[], first=100, runs=200, steps=140, nbig=0)]
     st, nnodes, outs, tstates = {}, 0, [], 0
     smp = [None, None, None]
@@ -149,7 +150,7 @@ def run(c):
             os.remove(lnk)
     c.samples = [dict(id=s["id"], run=s["run"], a=s["a"], args=s["args"], parent=s["parent"],
                       st=dict(s["st"], users=s["st"].get("users", [])[:2]) if "users" in s["st"] else s["st"]) for s in smp if s]
-    need = ["masterManyChildren", "unpricedChildBeforePaid", "twoUnpricedChildren", "swapDenomSwitch", "swapNewDenomPaid", "swapProRataPaid", "swapBurnEpochs", "swapSharedDenomPaid", "govDenomChanges", "multiPoolSwapPaid",
+    need = ["masterManyChildren", "unpricedChildBeforePaid", "twoUnpricedChildren", "swapDenomSwitch", "swapNewDenomPaid", "swapProRataPaid", "swapBurnEpochs", "swapSharedDenomPaid", "govDenomChanges", "multiPoolSwapPaid", "feePullFailedBooked",
             "splits", "bigSplits", "gaugeEpochs", "proRataPaid", "masterPaid", "skippedEpochBlocks", "created", "rejected", "gaugesEnded",
             "noPriceEpochs", "swapFeePaid", "extPayBlocks", "lendPayBlocks", "bigStates", "roots"]
     zero = [k for k in need if st.get(k, 0) == 0]
@@ -168,7 +169,8 @@ def run(c):
              "transition graph on nested cache contexts; (c) seeded behaviours: up to ~12 gauges over 3 pools, 4 farmers, own and shared reward denoms, "
              "real-size amounts (6/8/18 decimals), natural queue activation, price loss/recovery, reserve donations, swap-fee gauges with fees arriving in the "
              "current / a stale distribution denom, governance changes of SwapFeeDistrDenom and SwapFeeBurnRate, a ranged pool sharing pool 1's pair "
-             "(one fee collector for two gauges) in 3 of 8 runs, five pools (two with assets of their own; whole pools losing both prices; master gauges "
+             "(one fee collector for two gauges) in 3 of 8 runs - these open with a directed sequence: both pools farmed, fees collected and paid, one "
+             "oracle price of the pair lost for two epochs -, five pools (two with assets of their own; whole pools losing both prices; master gauges "
              "with the default or a random selection / order of child pools) in 3 of 8 runs, gauges created in the fee denoms, locker reward "
              "programs, lend (borrower) reward programs paid in a priced asset that gauges also use. Every recorded state is a TLC state of Trace_Gauge."),
         assumptions=["asset decimals are powers of ten (exact sdk.Dec valuation)",
